@@ -48,6 +48,21 @@ CHECKS = {
    note="inputs sampled; printed lines not compared across forms; re-iterables hiding one-shot iterators not generated",
    tech="deterministic simulation: instrumented one-shot streams with EOF/failure injection at chosen positions, exactly-once delivery and call ledgers",
    ref="DESIGN.md §5 C13"),
+ "C02": dict(level="exploration",
+   text="Store conformance of the persisted relations table: seeded GFF3 DAGs (depth<=4, multi-parent, dangling, shuffled) imported and "
+        "extended by updates with reopen/restart between steps and ENOSPC/EIO/crash faults on the relations temp file; every "
+        "stored feature queried for children/parents at levels 1, 2, None with filters, through handle, reopened handle and a "
+        "fresh process. The graph space is sampled, not enumerated.",
+   note="unique ids; graphs sampled over a small alphabet; sqlite commit atomic",
+   tech="deterministic simulation: seeded import+update histories with restart and temp-file fault injection vs Parent-graph model",
+   ref="DESIGN.md §5 C02"),
+ "C03": dict(level="exploration",
+   text="Store conformance of GTF-derived state: seeded annotations (explicit lines, shuffles, exon-less transcripts, custom keys) x "
+        "the four disable_infer settings; derived extents, retrievability and the three relation levels compared with a model "
+        "through handle, reopen and fresh process; temp-file faults must fail the import loudly.",
+   note="both ids on every line, one seqid/strand per gene; inputs sampled",
+   tech="deterministic simulation: seeded GTF imports with restart and temp-file fault injection vs inference model",
+   ref="DESIGN.md §5 C03"),
 }
 
 NA = {
